@@ -6224,6 +6224,9 @@ func (t *Terminal) Loop() error {
 
 		// The actions bound to an event (jump, jump-cancel, backward-eof,
 		// change) may have changed the query as well
+		if !t.inputless {
+			t.truncateQuery()
+		}
 		queryChanged = queryChanged || t.pasting == nil && string(previousInput) != string(t.input)
 		changed = changed || queryChanged
 
